@@ -129,6 +129,7 @@ func try2Float64(v interface{}) interface{} {
 }
 
 func (r *Runner) resolve(ctx context.Context, v Expression) (res interface{}, err error) {
+	defer verifResolveHook(r, v, &res, &err)()
 	switch n := v.(type) {
 	case *Identifier:
 		res, err = r.resolveIdentifier(ctx, n)
